@@ -5,7 +5,7 @@ import random
 
 import vf
 
-F_NONE = {"tls": "absent", "mechs": "none", "s2": "none", "legacy": False, "bind": False, "sm": False}
+F_NONE = {"tls": "absent", "mechs": "none", "s2": "none", "b2": "none", "r2": False, "legacy": False, "bind": False, "sm": False}
 
 
 def feat(**kw):
@@ -28,7 +28,7 @@ def epilogue(cfg, end_sock):
         steps += [HDR, feat(tls="optional", mechs="plain"), {"k": "Proceed"}]
     steps.append(HDR)
     if cfg["sasl2"]:
-        steps += [feat(s2="plain"), {"k": "Success2"}, feat(bind=True), {"k": "BindResult", "ok": True}]
+        steps += [feat(s2="plain"), {"k": "Success2", "res": "none", "bnd": "none"}, feat(bind=True), {"k": "BindResult", "ok": True}]
     elif cfg["sasl"]:
         steps += [feat(mechs="plain"), {"k": "Success"}, HDR, feat(bind=True), {"k": "BindResult", "ok": True}]
     else:
@@ -79,6 +79,10 @@ def sig_of(b, upto=None):
         if k == "Features":
             f = s["f"]
             on = [x for x in ("legacy", "bind", "sm") if f[x]]
+            if f.get("b2", "none") != "none":
+                on.append("bind2" + ("+sm" if f["b2"] == "sm" else ""))
+            if f.get("r2"):
+                on.append("resume2")
             return "Features(tls=%s,mechs=%s,s2=%s%s)" % (f["tls"], f["mechs"], f["s2"], "".join("," + x for x in on))
         extra = [f"{a}={s[a]}" for a in sorted(s) if a != "k"]
         return k + ("(" + ",".join(extra) + ")" if extra else "")
